@@ -49,13 +49,14 @@ def tree_hash():
         h.update(f.encode())
         with open(f, 'rb') as fh:
             h.update(fh.read())
+    h.update(json.dumps(VARIANTS, sort_keys=True).encode())
     return h.hexdigest()[:16]
 
 
 VARIANTS = {
     # name: (compiler, flags)
     'plain': ('g++', '-O1 -g'),
-    'asan': ('clang++', '-O1 -g -fsanitize=address,undefined -fno-sanitize=alignment,vptr '
+    'asan': ('clang++', '-O1 -g -fsanitize=address,undefined -fno-sanitize=alignment,vptr,nonnull-attribute '
                         '-fno-sanitize-recover=all -fno-omit-frame-pointer'),
     'tsan': ('clang++', '-O1 -g -fsanitize=thread'),
 }
